@@ -4,6 +4,7 @@
 import json, sys
 pid = sys.argv[1]
 wt = sys.argv[2]
+extra = sys.argv[3] if len(sys.argv) > 3 else ""
 p = next(json.loads(l) for l in open('/verif/properties.jsonl') if json.loads(l)['id'] == pid)
 print(f"""You are working on the Argobots C library (pmodels/argobots, a lightweight user-level threading runtime). Your private scratch copy is the git worktree at {wt} (already configured; build with `make -j8` in {wt}; run the existing test suite with `make -C test check -j8` in {wt}: all 119 tests pass today). Work ONLY inside {wt}. Do not read, list or write anything under /verif or /repo, and do not use any other directory of /tmp/seed.
 
@@ -25,4 +26,4 @@ Deliverables (create the directories):
   {wt}/SEED/A/run.sh       -- builds the library in its current state if needed, builds and runs the demo against {wt}; exit 0 = property held, non-zero = violated (use `timeout` so a hang counts as a failure)
   {wt}/SEED/A/NOTES.md     -- what the change breaks and why, what it needs in order to manifest, exactly what you ran (commands) and what you observed with and without the change, test-suite results with the change
   and the same four files under {wt}/SEED/B/ for change B.
-Verify each demo both ways yourself (with the change: fails; after `git checkout -- src` and rebuild: passes). When you are done leave the sources reverted (`git checkout -- src`), and reply with a short summary of A and B (files touched, mechanism, how reliably the demo fails). You have roughly 45 minutes; if you can only finish one solid change, deliver A alone and say so.""")
+Verify each demo both ways yourself (with the change: fails; after `git checkout -- src` and rebuild: passes). When you are done leave the sources reverted (`git checkout -- src`), and reply with a short summary of A and B (files touched, mechanism, how reliably the demo fails). You have roughly 45 minutes; if you can only finish one solid change, deliver A alone and say so.{extra}""")
